@@ -110,6 +110,15 @@ CHECKS = {
             "The original query's own result set is the reference (absolute correctness is C01). simplify() is not compared for FuzzyTerm nodes whose "
             "Levenshtein and Damerau readings differ on the corpus (C19 finding).",
             "DESIGN.md section 2 C15"),
+    "C16": ("exploration",
+            "grammar-aware fuzzing with Hypothesis (token-soup generator over 19 parser configurations, exception-type oracle) + generated intended trees rendered with the documented precedence and compared through the reference evaluator",
+            "totality: strings assembled from operators, brackets, quotes, field names of every field type, numbers, date words, unicode from all planes and targeted malformed "
+            "snippets are parsed by 19 parser configurations; parse() may only return a Query or raise QueryParserError, and searching the result on a fixed index of all field "
+            "types may only raise QueryError. meaning: generated trees (NOT/AND/OR/ANDNOT/ANDMAYBE/REQUIRE/implicit grouping, field prefixes, phrases with slop, ranges in all "
+            "bracket forms and open ends, wildcards, boosts) are rendered to the query language and the parsed query must select exactly the documents the reference evaluator "
+            "selects, under AndGroup and OrGroup.",
+            "The property statement's precedence is the authority over the gloss in querylang.rst. Differences caused by the two recorded And.normalize() findings are attributed only when the un-normalized parse is right and the structural trigger is present. An atheris campaign was not built (C-level regex taggers give no coverage gradient; see DESIGN.md).",
+            "DESIGN.md section 2 C16"),
     "C19": ("exploration",
             "exhaustive enumeration over small alphabets (sharded) + property-based testing (Hypothesis) against textbook edit-distance references",
             "small: every query word up to length 5 over {a,b} / 4 over {a,b,c} x d in 0..3 x prefix 0..4 against full and partial lexicons, on a one-segment (automaton) and a "
